@@ -55,10 +55,23 @@ func Exec(t *testing.T, prefix []verifx.Point, opt Options, main func()) (res *R
 func E1(t *testing.T, name string, budget int, opt Options, body func() Verdict) *verifx.Scenario {
 	if n, _ := strconv.Atoi(os.Getenv("VERIF_FREERUN")); n > 0 {
 		// the race-detector pass: n free-running executions of the same body, verdicts not evaluated
+		var cached *verifx.Outcome // the explorer may execute a scenario's only choice list more than once (replay checks)
 		return &verifx.Scenario{Name: name, Budget: 0, Exec: func(prefix []verifx.Point) *verifx.Outcome {
+			if cached != nil {
+				return cached
+			}
+			if opt.NoFreeRun != "" {
+				cached = &verifx.Outcome{Steps: 0, Obs: "not run free: " + opt.NoFreeRun}
+				return cached
+			}
 			ends := map[string]int{}
 			for i := 0; i < n; i++ {
-				ends[RunFree(t, int64(i), func() { body() })]++
+				var v Verdict
+				e := RunFree(t, int64(i), func() { v = body() })
+				ends[e]++
+				if os.Getenv("VERIF_DEBUG") != "" {
+					fmt.Fprintf(os.Stderr, "free run %s #%d: ended %q obs %q bad %q\n", name, i, e, v.Obs, v.Bad)
+				}
 			}
 			var log []string
 			for k, c := range ends {
@@ -67,7 +80,8 @@ func E1(t *testing.T, name string, budget int, opt Options, body func() Verdict)
 				}
 			}
 			sort.Strings(log)
-			return &verifx.Outcome{Steps: n, Obs: "free-running", Log: log}
+			cached = &verifx.Outcome{Steps: n, Obs: "free-running", Log: log}
+			return cached
 		}}
 	}
 	return &verifx.Scenario{Name: name, Budget: budget, Exec: func(prefix []verifx.Point) *verifx.Outcome {
